@@ -129,6 +129,24 @@ def run(ck):
             viol.append(dict(kind='entry', ant=ant, observed=s))
         elif a:
             dis.append(dict(ant=ant, why=a))
+    # a model written with integer coordinates through the API (inverted L in free space, vertical on the ground)
+    for ant in (dict(f=7.0, ground=False, family='integer-coordinates', lam=antgen.C / 7.0, seg=2.5, fresh=True,
+                     wires=[dict(nseg=8, p0=[0, 0, 0], p1=[0, 0, 20], r=0.05), dict(nseg=6, p0=[0, 0, 20], p1=[15, 0, 20], r=0.05)]),
+                dict(f=7.0, ground=True, family='integer-coordinates', lam=antgen.C / 7.0, seg=10 / 7, fresh=True,
+                     wires=[dict(nseg=7, p0=[3, -2, 0], p1=[3, -2, 10], r=0.02)])):
+        try:
+            a, s_, st = evaluate(d, ant)
+        except Exception as e:
+            dis.append(dict(ant=ant, why='evaluation raised %s: %s' % (type(e).__name__, e)))
+            continue
+        progs += st['far']
+        worst = max(worst, st['worst_spec'])
+        ck.case(('integer-coordinates', ant['ground']), st['far'] > 0)
+        ck.count('family_integer-coordinates')
+        if s_:
+            viol.append(dict(kind='entry', ant=ant, observed=s_))
+        elif a:
+            dis.append(dict(ant=ant, why=a))
     # grounded slopers exactly on the diagonals and axes (the non-vertical-grounded flag of the fill), grounded at either end
     import c05
     for ant in c05.diagonal_cases(rng)[:(6 if ck.tier == 'quick' else 12)]:
